@@ -242,6 +242,36 @@ def run(ctx):
             except Raised as e:
                 got = f"raises {e.exc_name}"
             r4.check(got is want, f"last-saved instance[{cname}: {field}]", f"{'declared' if want else 'not declared'}", gls.loc(), why_fail=f"got {got}")
+    # ... and for groups / repeats (relevant, repeat_count), and for the text cells whose references become <output>
+    # or attribute text: wherever the substituter can expand ${last-saved#x} into instance('__last-saved'), the
+    # detector must see it.  The traversal must hand sections to the detector as well.
+    gcls_, rcls_ = repo.cls("pyxform.section:GroupedSection"), repo.cls("pyxform.section:RepeatingSection")
+    iq_ = repo.cls("pyxform.question:InputQuestion")
+    extra_cases = [
+        ("group: bind relevant", gcls_, {"type": "group", "bind": {"relevant": "${last-saved#x} = 1"}, "control": None}, True),
+        ("repeat: repeat_count", rcls_, {"type": "repeat", "bind": None, "control": {"jr:count": "${last-saved#x}"}}, True),
+        ("repeat: bind relevant", rcls_, {"type": "repeat", "bind": {"relevant": "${last-saved#x} > 0"}, "control": {"appearance": "field-list"}}, True),
+        ("group: control with a non-text value", gcls_, {"type": "group", "bind": None, "control": {"bodyless": True}}, False),
+        ("group: nothing", gcls_, {"type": "group", "bind": {"relevant": "${x} = 1"}, "control": {"appearance": "field-list"}}, False),
+        ("question: label", iq_, {"type": "text", "label": "Last time: ${last-saved#x}", "bind": {"type": "string"}, "default": None, "choice_filter": None}, True),
+        ("question: translated label", iq_, {"type": "text", "label": {"en": "Last: ${last-saved#x}"}, "bind": {"type": "string"}, "default": None, "choice_filter": None}, True),
+        ("question: hint", iq_, {"type": "text", "label": "L", "hint": "was ${last-saved#x}", "bind": {"type": "string"}, "default": None, "choice_filter": None}, True),
+        ("question: constraint message", iq_, {"type": "text", "label": "L", "bind": {"type": "string", "jr:constraintMsg": "not ${last-saved#x}"}, "default": None, "choice_filter": None}, True),
+        ("question: instance attribute", iq_, {"type": "text", "label": "L", "bind": {"type": "string"}, "instance": {"x": "${last-saved#x}"}, "default": None, "choice_filter": None}, True),
+    ]
+    for desc, ci_, attrs, want in extra_cases:
+        el_ = _mk7b(ctx, ci_, "e", **attrs)
+        it = ctx.interp("C09.R4")
+        it.reset([])
+        try:
+            got = bool(it.call_function(gls, [el_], {}, None, gls.node))
+        except Raised as e:
+            got = f"raises {e.exc_name}"
+        r4.check(got is want, f"last-saved instance[{desc}]", f"{'declared' if want else 'not declared'}", gls.loc(), why_fail=f"got {got}")
+    gi = scls.methods["_generate_instances"]
+    gl_calls = [c for c in ast.walk(gi.node) if isinstance(c, ast.Call) and call_name(c) == "_generate_last_saved_instance"]
+    sect_ok = any(any("Section" in t for t in guard_texts(c, stop=gi.node)) for c in gl_calls)
+    r4.check(sect_ok, "_generate_instances:sections", "groups and repeats are handed to the last-saved detector too", gi.loc(), why_fail="the detector is only called for questions")
     rules.append(r4)
 
     # ------------------------------------------------------------------ R5
